@@ -47,6 +47,12 @@ func c05(p *core.Prog, r *core.Report) {
 	c05Failure(p, r)
 	c05Budget(p, r)
 	// exactly one outcome: a retried call reports nothing decoded by a failed attempt (shared with C18-R4)
+	// the result a caller gets is made of frames that were read completely:
+	// the reader dispatches a frame only if both reads of the iteration
+	// succeeded, and every read error ends the loop through the error handler
+	// (shared with C03-R3)
+	r.Rule("C05-R6", "E6 guards/paths", 4, "only completely read frames are dispatched; every read error fails the connection")
+	c03ReaderLoop(p, r, "C05-R6")
 	r.Rule("C05-R5", "E6 provenance", 1, "a retried call's outcome carries nothing of a failed attempt (shared with C18)")
 	r.Alias("C18-R4", "C05-R5")
 	c18RetryState(p, r)
